@@ -192,6 +192,107 @@ def refchain_tasks(ctx, tasks):
     return out
 
 
+def handle_expressions(tier):
+    '''class -> every expression of the host variant "handles" that yields an instance of it, one per kind of handle the grammar
+    allows in front of ".<name>" (selected is added by the where-clause programs, loop variables / migrated transients / select
+    results by the statement programs); thorough: chains one step longer.'''
+    V, F, I = H.V, H.F, H.I
+    P, PS = ('param', 'h'), ('index', ('param', 'hs'), I(0))
+    A = [V('a'), H.SELF, P, PS,                                                      # variable, self, parameter, element of an array parameter
+         F('a', 'Peer'), F(H.SELF, 'Peer'), F(P, 'Peer'), F('b', 'Owner'), F(('param', 'hb'), 'Owner'),      # attribute declared inst_ref<A>
+         ('index', F('a', 'Peers'), I(1)), ('index', F(P, 'Peers'), V('i')),        # element of an array attribute
+         F(F('a', 'Peer'), 'Peer'), F(PS, 'Peer'), F(F('a', 'Mate'), 'Owner'),      # attribute of an attribute / of an element
+         ('index', F(F('a', 'Peer'), 'Peers'), I(0))]
+    B = [V('b'), ('param', 'hb'), F('a', 'Mate'), F(P, 'Mate'), F(PS, 'Mate'), F(F('a', 'Peer'), 'Mate')]
+    C = [V('c'), F('a', 'Via'), F(P, 'Via')]
+    if tier != 'quick':
+        A += [F(h, 'Peer') for h in A[4:11]] + [('index', F(h, 'Peers'), I(2)) for h in A[3:9]]
+        B += [F(h, 'Mate') for h in A[4:15]]
+        C += [F(h, 'Via') for h in A[3:15]]
+    return {'A': A, 'B': B, 'C': C}
+
+
+def handles_programs(tier):
+    '''The handles family: attribute reads and writes "<handle>.<name>" for every handle expression of handle_expressions() and
+    every attribute name of the menu -- the names the translation knows from elsewhere (length, Length, sender) next to ordinary
+    ones, each declared with another type per class -- as the first value of a transient (which takes the declared type), copied,
+    returned, compared, in a condition, in a where clause next to the same attribute of selected, written, and written from a read
+    through the next handle; the same through selected, loop variables, select results and transients assigned a handle; and the
+    genuine <array>.length of transient, parameter and attribute arrays (also next to <handle>.length in one expression).'''
+    V, F, I, BIN, ASSIGN, SEL = H.V, H.F, H.I, H.BIN, H.ASSIGN, H.SEL
+    names = {'A': [('length', H.R15), ('Length', H.STR), ('sender', H.TRUE), ('Num', I(1)), ('When', I(1))],
+             'B': [('length', H.STR), ('Num', I(1))], 'C': [('length', I(1))]}
+    if tier != 'quick':
+        names['A'] += [('Rate', H.R15), ('Tag', H.STR)]
+    P = []
+    add = lambda *stmts: P.append(list(stmts))
+    handles = handle_expressions(tier)
+    for kl in sorted(handles):
+        hs = handles[kl]
+        for n, h in enumerate(hs):
+            other = hs[(n + 1) % len(hs)]
+            for name, K in names[kl]:
+                r = F(h, name)
+                add(ASSIGN('x', r))
+                add(ASSIGN('x', r), ASSIGN('y', V('x')), ('return', V('y')))
+                add(('return', r))
+                add(ASSIGN('x', K), ASSIGN('x', r), ASSIGN('y', BIN('==', r, V('x'))))
+                add(('if', BIN('==', r, K), [ASSIGN('x', r)], [(BIN('!=', F(other, name), r), [ASSIGN('x', F(other, name))])], [ASSIGN('x', K)],
+                     [False, False]), ASSIGN('x', H.TRUE))
+                add(('selfrom', 'any' if n % 2 else 'many', 'n', kl, BIN('==', F(SEL, name), r), True))
+                add(ASSIGN(r, K))
+                add(ASSIGN(r, F(other, name)), ASSIGN('x', r))
+    # selected as the handle, alone and in front of attributes that hold handles
+    for w in (BIN('>', F(SEL, 'length'), H.R15), BIN('==', F(SEL, 'Length'), H.STR), F(SEL, 'sender'),
+              BIN('<', F(F(SEL, 'Peer'), 'length'), F(SEL, 'length')), BIN('!=', F(F(SEL, 'Mate'), 'length'), F(SEL, 'Length')),
+              BIN('>', F(('index', F(SEL, 'Peers'), I(0)), 'length'), H.R15), BIN('==', F(F(SEL, 'Via'), 'length'), F(F(SEL, 'Nums'), 'length')),
+              BIN('and', F(F(SEL, 'Peer'), 'sender'), BIN('<', F(F(SEL, 'Nums'), 'length'), F('v', 'length')))):
+        add(('selfrom', 'any', 'n', 'A', w, True))
+        add(('selfrom', 'many', 'n', 'A', w, False), ('foreach', 'k', 'n', [ASSIGN('x', F('k', 'length'))], False))
+        add(('selrel', 'many', 'n', V('b'), [('A', 'R1', None)], w))
+        add(('selrel', 'one', 'n', V('a'), [('A', 'R2', H.T('next'))], w), ASSIGN('x', F('n', 'length')))
+    add(('selfrom', 'any', 'n', 'B', BIN('==', F(SEL, 'length'), F(F(SEL, 'Owner'), 'Length')), True), ASSIGN('x', F('n', 'length')))
+    add(('selrel', 'many', 'n', V('a'), [('B', 'R1', None)], BIN('!=', F(SEL, 'length'), H.STR)))
+    add(('selrel', 'any', 'n', V('a'), [('C', 'R3', None)], BIN('>', F(SEL, 'length'), I(0))), ASSIGN('x', F('n', 'length')))
+    # handles held by variables of every origin: created, selected, loop variable, transient assigned a handle of every kind
+    for name in ('length', 'Length', 'sender'):
+        add(('create', 'n', 'A'), ASSIGN('x', F('n', name)))
+        add(('selfrom', 'any', 'n', 'A', None, True), ASSIGN('x', F('n', name)), ASSIGN(F('n', name), V('x')))
+        add(('foreach', 'k', 'aset', [ASSIGN('x', F('k', name)), ASSIGN(F('k', name), V('x'))], False))
+        for h in handles['A'][1:]:
+            add(ASSIGN('m', h), ASSIGN('x', F('m', name)), ASSIGN(F('m', name), F(h, name)))
+    # genuine array lengths -- the integer the translation represents as V_ALV -- alone and next to <handle>.length
+    arrays = [V('v'), V('w'), ('index', V('w'), I(0)), ('param', 'ns')] + [F(h, 'Nums') for h in handles['A']]
+    for n, arr in enumerate(arrays):
+        ln = F(arr, 'length')
+        h = handles['A'][n % len(handles['A'])]
+        add(ASSIGN('x', ln))
+        add(ASSIGN('x', ln), ASSIGN('y', V('x')), ('return', BIN('+', V('y'), ln)))
+        add(('return', ln))
+        add(ASSIGN('q', BIN('<', ln, F(h, 'length'))), ASSIGN('x', F(h, 'length')), ASSIGN('y', ln))
+        add(ASSIGN('x', F(h, 'length')), ASSIGN('y', ln), ASSIGN('q', BIN('>=', V('x'), V('y'))))
+        add(('while', BIN('<', V('i'), ln), [ASSIGN('i', BIN('+', V('i'), I(1))), ASSIGN(F(h, 'Num'), ln)], False))
+        add(('selfrom', 'many', 'n', 'A', BIN('==', F(SEL, 'Num'), ln), True))
+        add(ASSIGN('x', ('index', arr, BIN('-', ln, I(1)))) if arr[0] != 'index' and arr != V('w') else ASSIGN('x', BIN('*', ln, ln)))
+    return P
+
+
+def handles_tasks(ctx):
+    '''Every program of handles_programs() in every home in which it is well-formed (self: operation and attribute; parameters:
+    function, bridge and operation), on the host variant "handles", alternately through prebuild_action and prebuild_model,
+    every third one in the multi-line layout.'''
+    out, seen = [], set()
+    for n, core_stmts in enumerate(handles_programs(ctx.tier)):
+        for k, home in enumerate(H.HOMES):
+            stmts = H.tolist(core_stmts)
+            if H.complete(stmts, home, variant='handles') is None or (repr(stmts), home) in seen:
+                continue
+            seen.add((repr(stmts), home))
+            out.append(dict(family='handles', stmts=stmts, home=home, entry='model' if (n + k + ctx.seed) % 2 else 'action',
+                            host='handles', layouts=['lines' if (n + k + ctx.seed) % 3 == 2 else 'default']))
+    return out
+
+
 def history_tasks(ctx, tasks):
     '''The history family: every history of prebuildhost.histories() before every k-th program of the statement family
     (homes rotate with the programs), alternately in the one-line and in the multi-line layout.'''
@@ -210,7 +311,7 @@ def run(ctx):
     from mc import core
     tasks, bounds = H.all_tasks(ctx.tier, ctx.seed)
     tasks = with_layouts(ctx, tasks)
-    tasks = tasks + history_tasks(ctx, tasks) + component_tasks(ctx, tasks) + refchain_tasks(ctx, tasks)
+    tasks = tasks + history_tasks(ctx, tasks) + component_tasks(ctx, tasks) + refchain_tasks(ctx, tasks) + handles_tasks(ctx)
     ctx.notes['refchain_second_level'] = sum(1 for t in tasks if t.get('second_level'))
     k = (ctx.seed * 97) % max(1, len(tasks))
     tasks = tasks[k:] + tasks[:k]
@@ -236,6 +337,15 @@ def run(ctx):
     ctx.require(ctx.n('family:refchain') >= 100 and ctx.notes['refchain_second_level'] >= 50,
                 'refchain family: %d programs, %d of them read the second-level referential attribute'
                 % (ctx.n('family:refchain'), ctx.notes['refchain_second_level']))
+    special = dict((k.split(':', 1)[1], v) for k, v in ctx.counts.items() if k.startswith('special_attribute:'))
+    lengths = dict((k.split(':', 1)[1], v) for k, v in ctx.counts.items() if k.startswith('array_length:'))
+    ctx.notes['handles'] = dict(special=special, lengths=lengths)
+    missing = [k for k in HANDLE_KINDS if special.get(k, 0) < 10]
+    ctx.require(ctx.n('family:handles') >= 1500 and not missing,
+                'handles family: %d programs; attributes named %s were read or written fewer than 10 times through: %s'
+                % (ctx.n('family:handles'), H.SPECIAL_ATTRIBUTE_NAMES, missing))
+    missing = [k for k in ARRAY_KINDS if lengths.get(k, 0) < 10]
+    ctx.require(not missing, 'handles family: <array>.length was read fewer than 10 times on: %s' % missing)
     ctx.require(ctx.n('usertype_checks') >= 5000, 'too few values / variables expected to carry a user data type were compared (%d)'
                 % ctx.n('usertype_checks'))
     nh = len(H.histories())
@@ -245,7 +355,7 @@ def run(ctx):
                 'too few value / statement instances were walked')
     from mc.refs import oalast
     for t in tasks[:: max(1, len(tasks) // 4)][:4]:
-        full, printed, _ = H.complete(t['stmts'], t['home'])
+        full, printed, _ = H.complete(t['stmts'], t['home'], variant=t.get('host'))
         ctx.sample(dict(family=t['family'], home=t['home'], text=oalast.assemble(printed, H.layout_of(printed, 'lines'))[0]))
 
 
